@@ -223,7 +223,7 @@ Definition parse_volume (dev : device) (lba_start num_blocks : N) : outcome volu
       match bpb_fs_info_block b with
       | None => Panic   (* .unwrap() *)
       | Some info_location =>
-        if bpb_total_blocks d <=? info_location then Err (FormatError InfoLoc) else
+        if (info_location =? 0) || (fat_start <=? info_location) then Err (FormatError InfoLoc) else
         let! info_idx := add32 lba_start info_location in      (* in the struct literal *)
         let! info_idx2 := add32 lba_start info_location in     (* argument of the read *)
         let! info_block := read_block dev info_idx2 in
